@@ -160,8 +160,16 @@ pub fn gen_workload(rng: &mut Rng, plan: &mut Plan, ids: &mut Ids, w: &Workload)
     let use_bursts = w.bursts && rng.chance(1, 2);
     let use_cancels = w.cancels && rng.chance(1, 2);
     let use_yields = rng.chance(1, 3);
-    for _ in 0..ncallers {
-        let nops = rng.urange(1, w.max_ops);
+    // a small share of plans is one long history on the connection: hundreds of requests
+    let long_history = w.max_ops >= 8 && rng.chance(1, 100);
+    for ci in 0..ncallers {
+        let nops = if long_history && ci == 0 {
+            *rng.pick(&[200usize, 255, 256, 257, 300, 520])
+        } else {
+            rng.urange(1, w.max_ops)
+        };
+        let size_class = if long_history && ci == 0 { 0 } else { size_class };
+        let zero_think = zero_think || (long_history && ci == 0);
         let mut script = Vec::new();
         if rng.chance(1, 2) {
             script.push(Op::Think {
@@ -199,6 +207,18 @@ pub fn gen_workload(rng: &mut Rng, plan: &mut Plan, ids: &mut Ids, w: &Workload)
             script.push(Op::DropHandle);
         }
         plan.callers.push(script);
+    }
+    // rarely one reply carries a payload far beyond the receive buffer and its first doublings
+    if w.big_replies && rng.chance(1, 150) {
+        let keys: Vec<u64> = plan.replies.keys().copied().collect();
+        if !keys.is_empty() {
+            let id = *rng.pick(&keys);
+            if let Some(s) = plan.replies.get_mut(&id) {
+                if s.fail.is_none() {
+                    s.binary = Some(*rng.pick(&[65536u32, 131073, 400_000]));
+                }
+            }
+        }
     }
 }
 
